@@ -135,3 +135,86 @@ package breaker
 //@   property C01
 //@   requires brkOK(p.b)
 //@   ensures  rwAdded[p.b.stat] == upd(old(rwAdded[p.b.stat]), 1, old(added(p.b, 1)) + 1)
+
+// ---- wrappers: every entry point funnels into exactly one doReq/allow of the inner throttle with the caller's functions ----
+// Interface contracts (trusted as interface specifications; googleBreaker and loggedThrottle are the implementations verified above/below).
+//@ ghost var thrCalls int
+//@ ghost var thrAllows int
+//@ ghost var thrReq any
+//@ ghost var thrFallback any
+//@ ghost var thrAcceptable any
+//@ ghost var thrResult error
+//@ ghost var thrPromise any
+
+//@ extern func (t throttle) doReq
+//@   ensures thrCalls == old(thrCalls) + 1 && thrReq == req && thrFallback == fallback && thrAcceptable == acceptable && result == thrResult
+//@   modifies thrCalls, thrReq, thrFallback, thrAcceptable, thrResult
+//@ extern func (t throttle) allow
+//@   results p, err
+//@   ensures thrAllows == old(thrAllows) + 1 && p == thrPromise && err == thrResult
+//@   modifies thrAllows, thrPromise, thrResult
+//@ extern func (t internalThrottle) doReq
+//@   ensures thrCalls == old(thrCalls) + 1 && thrReq == req && thrFallback == fallback && thrAcceptable == acceptable && result == thrResult
+//@   modifies thrCalls, thrReq, thrFallback, thrAcceptable, thrResult
+//@ extern func (t internalThrottle) allow
+//@   results p, err
+//@   ensures thrAllows == old(thrAllows) + 1 && p == thrPromise && err == thrResult
+//@   modifies thrAllows, thrPromise, thrResult
+
+//@ func defaultAcceptable
+//@   property C01
+//@   pure
+//@   ensures result == (err == nil)
+//@   modifies nothing
+
+//@ func (cb *circuitBreaker) Do
+//@   property C01
+//@   ensures thrCalls == old(thrCalls) + 1 && thrReq == req && thrFallback == nil && thrAcceptable == defaultAcceptable && result == thrResult
+//@ func (cb *circuitBreaker) DoWithAcceptable
+//@   property C01
+//@   ensures thrCalls == old(thrCalls) + 1 && thrReq == req && thrFallback == nil && thrAcceptable == acceptable && result == thrResult
+//@ func (cb *circuitBreaker) DoWithFallback
+//@   property C01
+//@   ensures thrCalls == old(thrCalls) + 1 && thrReq == req && thrFallback == fallback && thrAcceptable == defaultAcceptable && result == thrResult
+//@ func (cb *circuitBreaker) DoWithFallbackAcceptable
+//@   property C01
+//@   ensures thrCalls == old(thrCalls) + 1 && thrReq == req && thrFallback == fallback && thrAcceptable == acceptable && result == thrResult
+//@ func (cb *circuitBreaker) Allow
+//@   property C01
+//@   results p, err
+//@   ensures thrAllows == old(thrAllows) + 1 && p == thrPromise && err == thrResult
+
+// the Ctx variants: a done context short-circuits without touching the throttle (no request, no fallback, window untouched)
+//@ func (cb *circuitBreaker) DoCtx
+//@   property C01
+//@   ensures (thrCalls == old(thrCalls) && result == ctxErr[ctx]) || (thrCalls == old(thrCalls) + 1 && thrReq == req && thrFallback == nil && thrAcceptable == defaultAcceptable && result == thrResult)
+//@ func (cb *circuitBreaker) DoWithAcceptableCtx
+//@   property C01
+//@   ensures (thrCalls == old(thrCalls) && result == ctxErr[ctx]) || (thrCalls == old(thrCalls) + 1 && thrReq == req && thrFallback == nil && thrAcceptable == acceptable && result == thrResult)
+//@ func (cb *circuitBreaker) DoWithFallbackCtx
+//@   property C01
+//@   ensures (thrCalls == old(thrCalls) && result == ctxErr[ctx]) || (thrCalls == old(thrCalls) + 1 && thrReq == req && thrFallback == fallback && thrAcceptable == defaultAcceptable && result == thrResult)
+//@ func (cb *circuitBreaker) DoWithFallbackAcceptableCtx
+//@   property C01
+//@   ensures (thrCalls == old(thrCalls) && result == ctxErr[ctx]) || (thrCalls == old(thrCalls) + 1 && thrReq == req && thrFallback == fallback && thrAcceptable == acceptable && result == thrResult)
+//@ func (cb *circuitBreaker) AllowCtx
+//@   property C01
+//@   results p, err
+//@   ensures (thrAllows == old(thrAllows) && p == nil && err == ctxErr[ctx]) || (thrAllows == old(thrAllows) + 1 && p == thrPromise && err == thrResult)
+
+// the logging layer passes request and fallback through and wraps the acceptability predicate without changing its verdict
+//@ func (lt loggedThrottle) logError
+//@   property C01
+//@   ensures result == err
+//@   modifies nothing
+//@ func (lt loggedThrottle) doReq
+//@   property C01
+//@   ensures thrCalls == old(thrCalls) + 1 && thrReq == req && thrFallback == fallback && result == thrResult
+//@ func (lt loggedThrottle) doReq closure 0
+//@   property C01
+//@   flag callbacks_noheap
+//@   ensures calls(acceptable) == old(calls(acceptable)) + 1 && argOf(acceptable, 0) == err && result == ret(acceptable)
+//@ func (lt loggedThrottle) allow
+//@   property C01
+//@   results p, err
+//@   ensures thrAllows == old(thrAllows) + 1 && err == thrResult
